@@ -3866,3 +3866,27 @@ def dtype_agree(r: R, chk, qual: str = "heavy.LeastSquare.func2func", rule="DTYP
                        func=qual, construct=f"factor {nm} without the accumulator's dtype")
     chk.floor(rule, f"arrays that are factors of an in-place accumulation in {qual}", n, 3)
     return n
+
+
+# ---------------------------------------------------------------------------------------------------------
+# UNION-DEGREE: U | V writes every multiplicity in the common degree before it takes the maximum
+def union_degree(r: R, chk, qual: str = "heavy.ImmutableKnotVector.__or__", rule="UNION-DEGREE"):
+    """A spline of degree p with a knot of multiplicity m there is C^(p-m); written in degree r = max(p, q) the same continuity
+    needs multiplicity m + (r - p).  `U | V` has to hold every spline over U and over V, so what it compares per knot is the
+    multiplicity raised by the degree difference: the value stored into the table of multiplicities depends — through its
+    reaching definitions — on a `.degree`."""
+    fi = r.prog.func(qual)
+    fn = fi.node
+    pos = _block_defs(fn)
+    n = 0
+    for st in ast.walk(fn):
+        if not (isinstance(st, ast.Assign) and len(st.targets) == 1 and isinstance(st.targets[0], ast.Subscript) and isinstance(st.targets[0].value, ast.Name) and "mult" in st.targets[0].value.id.lower()):
+            continue
+        n += 1
+        ex = resolve_reaching(fn, st.value, st, params=fi.params, pos=pos)
+        ok = any(isinstance(x, ast.Attribute) and x.attr == "degree" for x in ast.walk(ex))
+        chk.ob(rule, f"{qual}: `{seg(st, 40)}` stores a multiplicity written in the common degree", ok, loc=f"{fi.module}.py:{st.lineno}",
+               detail="" if ok else f"{qual}: `{seg(st, 50)}` stores `{seg(ex, 50)}`, which does not involve the degree of either operand: for different degrees the multiplicities of the lower-degree vector are not raised by the difference, the union is not a space that holds its splines — A + B raises (shapes do not match) and A / B is silently wrong for polynomial curves of different degrees when the lower-degree curve has an interior knot",
+               func=qual, construct="union multiplicity ignores the degrees")
+    chk.floor(rule, f"stores into the table of multiplicities in {qual}", n, 1)
+    return n
